@@ -47,6 +47,20 @@ class RealEnv(object):
         self.peer, _ = self.lsock.accept()
         return s
 
+    def connect_high(self):
+        # a socket whose descriptor number is beyond FD_SETSIZE
+        import fcntl
+        import resource
+        soft, hard = resource.getrlimit(resource.RLIMIT_NOFILE)
+        if soft < 2048:
+            resource.setrlimit(resource.RLIMIT_NOFILE,
+                               (min(4096, hard), hard))
+        s0 = self.connect()
+        fd = fcntl.fcntl(s0.fileno(), fcntl.F_DUPFD, 1100)
+        s = socket.socket(fileno=fd)
+        s0.close()
+        return s
+
     def refused_addr(self):
         t = socket.socket()
         t.bind(('127.0.0.1', 0))
@@ -135,6 +149,10 @@ class SimEnv(object):
         s.connect(('203.0.113.1', 1))
         self.w.sleep(100)
         return s
+
+    def connect_high(self):
+        self.w.net.next_fd = 1100
+        return self.connect()
 
     def refused_addr(self):
         self.w.net.refuse.add(self.w.net.attempts)
@@ -416,7 +434,18 @@ def case_close_releases_only_with_file(env):
     return [('after-sock-close', got1), ('after-file-close', got2)]
 
 
-CASES = [case_refused, case_read_data_short, case_read_eof,
+def case_descriptor_beyond_select_range(env):
+    s = env.connect_high()
+    env.server_send(b'x')
+    a = outcome(lambda: env.select.select([s], [], [], 0))
+    p = env.select.poll()
+    p.register(s, env.select.POLLIN)
+    b = outcome(lambda: [m for _fd, m in p.poll(0)])
+    c = outcome(lambda: s.recv(10))
+    return [s.fileno() >= 1024, a, b, c]
+
+
+CASES = [case_descriptor_beyond_select_range, case_refused, case_read_data_short, case_read_eof,
          case_read_after_file_close, case_read_after_rst,
          case_rst_with_unread_data_read_first,
          case_rst_with_unread_data_send_first,
